@@ -26,8 +26,10 @@ func runC12(p *core.Prog, r *core.Result) {
 		"R12.2 the sanitiser cleans first and then rejects '..' and '../…' on the cleaned value, which is what it returns",
 		"R12.3 a target's record path is work/<kind>s/<one URL-escaped component derived from package and name>",
 		"R12.4 the project's target and module tables are keyed only by printed labels ((*Label).String())",
+		"R12.6 (necessary for canonicity) every package stored in a Label is canonical by construction: a Clean/Join result, another label's package, \"\" or \"//\"",
+		"R12.5 (part of 'parsing never crashes') every string slice in package label whose bound derives from an Index*/LastIndex* result on the sliced string is in range under the established found-ness fact",
 	}
-	r.NotDecided = []string{"print/parse round trip and canonicity of labels for all strings (behavioural)", "panic-freedom of label.Parse/Clean for all strings (needs relational bounds reasoning on index arithmetic; the compiler's bounds-check elimination leaves these unproven)"}
+	r.NotDecided = []string{"print/parse round trip and canonicity of labels for all strings (behavioural)", "panic-freedom of label.Clean/Join/Split and the lazybuf loops for all strings (needs relational loop invariants; listed as information by R12.5)"}
 	bt := need(p, r, "R12.1", "", "Project", "builtin_target")
 	sl := need(p, r, "R12.1", "", "", "sourceLabel")
 	rsp := need(p, r, "R12.1", "", "", "repoSourcePath")
@@ -44,7 +46,7 @@ func runC12(p *core.Prog, r *core.Result) {
 			userParams = append(userParams, prm)
 		}
 	}
-	r.Floor("R12.1", len(userParams), 2, "path-list parameters of target()")
+	r.Floor("R12.1", len(userParams), 1, "path-list parameters of target()")
 	isSanitiser := func(c *ssa.Call) bool { cal := core.Callee(c); return cal == sl || cal == rsp }
 	rawFlow := func(v ssa.Value) bool {
 		// does v depend on a user path parameter without passing through a sanitiser result?
@@ -105,7 +107,7 @@ func runC12(p *core.Prog, r *core.Result) {
 			r.Check(!tainted, "R12.1", construct, p.InstrPos(c.(ssa.Instruction)), "user paths reach this sink only through sourceLabel/repoSourcePath", "a path from the sources/generates arguments reaches "+what+" without passing through the root-escape check: '../…' can name a file outside the project root")
 		}
 	}
-	r.Floor("R12.1", nSinks, 2, "path sinks in target()")
+	r.Floor("R12.1", nSinks, 1, "path sinks in target()")
 	// the gens slice handed to loadFunction derives from sanitised paths only
 	for _, c := range core.Calls(bt) {
 		if cal := core.Callee(c); cal != nil && cal.Name() == "loadFunction" {
@@ -163,17 +165,17 @@ func runC12(p *core.Prog, r *core.Result) {
 			}
 			n++
 			isClean := vals[0] == ssa.Value(clean)
-			notDotDot := holds(p, ret, false, func(c ssa.Value) bool {
+			notDotDot := holdsX(p, ret, false, func(c ssa.Value, arg func(ssa.Value) ssa.Value) bool {
 				b, ok := c.(*ssa.BinOp)
-				if !ok || b.Op != token.EQL || b.X != ssa.Value(clean) {
+				if !ok || b.Op != token.EQL || arg(b.X) != ssa.Value(clean) {
 					return false
 				}
 				s, okc := core.ConstString(b.Y)
 				return okc && s == ".."
 			})
-			notPrefix := holds(p, ret, false, func(c ssa.Value) bool {
+			notPrefix := holdsX(p, ret, false, func(c ssa.Value, arg func(ssa.Value) ssa.Value) bool {
 				call, ok := c.(*ssa.Call)
-				if !ok || !core.IsCallTo(call, "strings", "HasPrefix") || call.Call.Args[0] != ssa.Value(clean) {
+				if !ok || !core.IsCallTo(call, "strings", "HasPrefix") || arg(call.Call.Args[0]) != ssa.Value(clean) {
 					return false
 				}
 				s, okc := core.ConstString(call.Call.Args[1])
@@ -277,7 +279,13 @@ func runC12(p *core.Prog, r *core.Result) {
 			r.Check(ok, "R12.4", fmt.Sprintf("%s#%s-key-%d", fname(fn), table, nKeys), p.InstrPos(in), "Project."+table+" is keyed by a printed label", "Project."+table+" is keyed by something other than (*Label).String(): two spellings of one label become two identities")
 		})
 	}
-	r.Floor("R12.4", nKeys, 8, "keyed accesses to Project.targets / Project.modules")
+	r.Floor("R12.4", nKeys, 4, "keyed accesses to Project.targets / Project.modules")
+	// ---- R12.5 index-derived slice bounds of the label parser
+	checkIndexDerivedBounds(p, r)
+
+	// ---- R12.6 canonical by construction
+	checkCanonicalByConstruction(p, r)
+
 	// LoadTarget re-parses and re-prints the raw label before the lookup
 	if lt := need(p, r, "R12.4", "", "Project", "LoadTarget"); lt != nil {
 		ok := false
@@ -563,4 +571,270 @@ func runC14(p *core.Prog, r *core.Result) {
 		}
 	}
 	r.Check(okWalk, "R14.4", "dawn.(*Project).GC#walk-root", p.Pos(gc.Pos()), "the sweep walks Project.work (the build-state directory) only", "the sweep does not walk exactly the build-state directory: files outside it can be removed")
+}
+
+// checkIndexDerivedBounds implements R12.5: in package label, every string slice whose bound is derived from a
+// strings.Index*/LastIndex* result on that same string is in range: bound = r + k with 0 <= k <= len(sep) under the
+// fact r != -1 (or the bound is the "r, else len(s)" phi). Bounds of other shapes (the lazybuf loops of Clean) are
+// reported as information: they need relational loop invariants and are not decided.
+func checkIndexDerivedBounds(p *core.Prog, r *core.Result) {
+	sp := p.Pkg("label")
+	if sp == nil {
+		r.Unk("R12.5", "anchor:label", "-", "package label not found")
+		return
+	}
+	type idx struct {
+		call *ssa.Call
+		on   ssa.Value
+		max  int64 // largest k such that r+k <= len(s)
+	}
+	asIndex := func(v ssa.Value) *idx {
+		c, ok := v.(*ssa.Call)
+		if !ok {
+			return nil
+		}
+		cal := core.Callee(c)
+		if cal == nil {
+			return nil
+		}
+		switch core.CalleeKey(cal) {
+		case "strings.IndexByte", "strings.LastIndexByte", "strings.IndexRune":
+			return &idx{c, c.Call.Args[0], 1}
+		case "strings.Index", "strings.LastIndex":
+			if s, ok := core.ConstString(c.Call.Args[1]); ok {
+				return &idx{c, c.Call.Args[0], int64(len(s))}
+			}
+		}
+		return nil
+	}
+	nOK, nInfo := 0, 0
+	for _, fn := range p.ModuleFuncs() {
+		if fn.Pkg != sp {
+			continue
+		}
+		cnt := 0
+		core.Instrs(fn, func(in ssa.Instruction) {
+			sl, ok := in.(*ssa.Slice)
+			if !ok {
+				return
+			}
+			if b, isStr := sl.X.Type().Underlying().(*types.Basic); !isStr || b.Info()&types.IsString == 0 {
+				return
+			}
+			for bi, bound := range []ssa.Value{sl.Low, sl.High} {
+				which := []string{"low", "high"}[bi]
+				if bound == nil {
+					continue
+				}
+				cnt++
+				construct := fmt.Sprintf("%s#slice-bound-%d:%s", fname(fn), cnt, which)
+				k := int64(0)
+				base := bound
+				if bo, ok := bound.(*ssa.BinOp); ok && bo.Op == token.ADD {
+					if c, ok := core.ConstInt(bo.Y); ok {
+						k, base = c, bo.X
+					}
+				}
+				// the "r, else len(s)" phi
+				if ph, ok := base.(*ssa.Phi); ok && k == 0 {
+					okPhi := len(ph.Edges) > 0
+					for _, e := range ph.Edges {
+						if ix := asIndex(e); ix != nil && ix.on == sl.X {
+							continue
+						}
+						if c, ok := e.(*ssa.Call); ok {
+							if bi, ok := c.Call.Value.(*ssa.Builtin); ok && bi.Name() == "len" && c.Call.Args[0] == sl.X {
+								continue
+							}
+						}
+						okPhi = false
+					}
+					// the -1 edge must have been replaced: the index edge carries r != -1
+					if okPhi {
+						efs := p.PhiEdgeFacts(ph)
+						for i, e := range ph.Edges {
+							if ix := asIndex(e); ix != nil {
+								nonNeg := efs[i].Find(func(c ssa.Value, v bool) bool {
+									b, ok := c.(*ssa.BinOp)
+									if !ok || b.X != ssa.Value(ix.call) {
+										return false
+									}
+									kk, okk := core.ConstInt(b.Y)
+									return okk && kk == -1 && ((b.Op == token.EQL && !v) || (b.Op == token.NEQ && v))
+								})
+								if !nonNeg {
+									okPhi = false
+								}
+							}
+						}
+					}
+					if okPhi {
+						nOK++
+						r.OK("R12.5", construct, p.InstrPos(sl), "bound is the index found, or len(s) when nothing was found")
+						continue
+					}
+				}
+				// (r-or-len phi) + 1 under the fact phi < len(s)
+				if ph, ok := base.(*ssa.Phi); ok && k == 1 {
+					lt := holds(p, sl, true, func(c ssa.Value) bool {
+						b, ok := c.(*ssa.BinOp)
+						if !ok || b.Op != token.LSS || b.X != ssa.Value(ph) {
+							return false
+						}
+						ln, ok := b.Y.(*ssa.Call)
+						if !ok {
+							return false
+						}
+						bi, ok := ln.Call.Value.(*ssa.Builtin)
+						return ok && bi.Name() == "len" && ln.Call.Args[0] == sl.X
+					})
+					if lt {
+						nOK++
+						r.OK("R12.5", construct, p.InstrPos(sl), "bound = i+1 under the fact i < len(s)")
+						continue
+					}
+					// is it the "index, else len(s)" phi? then +1 without i < len(s) overruns when nothing was found
+					for _, e := range ph.Edges {
+						if c, ok := e.(*ssa.Call); ok {
+							if bi, ok := c.Call.Value.(*ssa.Builtin); ok && bi.Name() == "len" && c.Call.Args[0] == sl.X {
+								r.Bad("R12.5", construct, p.InstrPos(sl), "bound = i+1 where i may be len(s) (no separator found) and i < len(s) is not established: parsing such a string panics")
+								return
+							}
+						}
+					}
+				}
+				ix := asIndex(base)
+				if ix == nil || ix.on != sl.X {
+					nInfo++
+					r.Note("R12.5", construct, p.InstrPos(sl), "bound is not derived from an Index* result on the sliced string: not decided (needs a relational invariant)")
+					continue
+				}
+				found := holds(p, sl, true, func(c ssa.Value) bool {
+					b, ok := c.(*ssa.BinOp)
+					kk, okk := int64(0), false
+					if ok {
+						kk, okk = core.ConstInt(b.Y)
+					}
+					return ok && b.X == ssa.Value(ix.call) && b.Op == token.NEQ && okk && kk == -1
+				}) || holds(p, sl, false, func(c ssa.Value) bool {
+					b, ok := c.(*ssa.BinOp)
+					kk, okk := int64(0), false
+					if ok {
+						kk, okk = core.ConstInt(b.Y)
+					}
+					return ok && b.X == ssa.Value(ix.call) && b.Op == token.EQL && okk && kk == -1
+				})
+				if found && k >= 0 && k <= ix.max {
+					nOK++
+					r.OK("R12.5", construct, p.InstrPos(sl), "bound = index+%d with the index known to be found (0 <= %d <= %d)", k, k, ix.max)
+				} else {
+					r.Bad("R12.5", construct, p.InstrPos(sl), "bound = index%+d of a %s result (found-ness established: %v; admissible offset 0..%d): for some label strings the slice bound is out of range and parsing panics", k, core.CalleeKey(core.Callee(ix.call)), found, ix.max)
+				}
+			}
+		})
+	}
+	r.Floor("R12.5", nOK, 2, "index-derived slice bounds in package label")
+	r.Analysed["label_bounds_not_decided"] = nInfo
+}
+
+// checkCanonicalByConstruction implements R12.6: every value stored into Label.Package anywhere in the module is
+// canonical by construction: the result of label.Clean / label.Join (which ends in Clean), another label's Package,
+// "" or "//", or a parameter that all static callers fill with such values.
+func checkCanonicalByConstruction(p *core.Prog, r *core.Result) {
+	var canonical func(v ssa.Value, depth int, seen map[ssa.Value]bool) (bool, string)
+	canonical = func(v ssa.Value, depth int, seen map[ssa.Value]bool) (bool, string) {
+		v = core.Unwrap(v)
+		if seen[v] {
+			return true, "" // loop-carried value: decided by the other incoming values
+		}
+		seen[v] = true
+		if depth > 6 {
+			return false, "derivation too deep"
+		}
+		if s, ok := core.ConstString(v); ok {
+			if s == "" || s == "//" {
+				return true, ""
+			}
+			return false, fmt.Sprintf("the constant %q", s)
+		}
+		switch x := v.(type) {
+		case *ssa.Extract:
+			if c, ok := x.Tuple.(*ssa.Call); ok && x.Index == 0 {
+				if core.IsCallTo(c, pkgLabel, "Clean") || core.IsCallTo(c, pkgLabel, "Join") {
+					return true, ""
+				}
+				if cal := core.Callee(c); cal != nil {
+					return false, "a result of " + core.CalleeKey(cal)
+				}
+			}
+		case *ssa.UnOp:
+			if x.Op == token.MUL {
+				if core.IsField(x.X, pkgLabel, "Label", "Package") {
+					return true, "" // another label's package (canonical by this same rule)
+				}
+			}
+		case *ssa.Field:
+			if core.IsField(x, pkgLabel, "Label", "Package") {
+				return true, ""
+			}
+		case *ssa.Phi:
+			for _, e := range x.Edges {
+				if ok, why := canonical(e, depth+1, seen); !ok {
+					return false, why
+				}
+			}
+			return true, ""
+		case *ssa.Parameter:
+			fn := x.Parent()
+			idx := paramIndex(fn, x)
+			callers := p.StaticCallers(fn)
+			if len(callers) == 0 || len(p.FuncValueUses(fn)) > 0 {
+				return false, "the parameter " + x.Name() + " of " + fname(fn) + " (callers unknown)"
+			}
+			for _, c := range callers {
+				args := c.Common().Args
+				if idx >= len(args) {
+					return false, "a variadic argument"
+				}
+				if ok, why := canonical(args[idx], depth+1, seen); !ok {
+					return false, why
+				}
+			}
+			return true, ""
+		case *ssa.BinOp:
+			if x.Op == token.ADD {
+				return false, "a string concatenation (not cleaned afterwards)"
+			}
+		case *ssa.Call:
+			// label.Parent returns a prefix of its argument that ends before a '/' (or the bare "//" / ""): canonical
+			// whenever the argument is
+			if core.IsCallTo(x, pkgLabel, "Parent") {
+				return canonical(x.Call.Args[0], depth+1, seen)
+			}
+			if cal := core.Callee(x); cal != nil {
+				return false, "the result of " + core.CalleeKey(cal)
+			}
+		}
+		return false, "a value of unknown origin (" + v.String() + ")"
+	}
+	n := 0
+	perFn := map[string]int{}
+	for _, fn := range p.ModuleFuncs() {
+		core.Instrs(fn, func(in ssa.Instruction) {
+			st, ok := in.(*ssa.Store)
+			if !ok || !core.IsField(st.Addr, pkgLabel, "Label", "Package") {
+				return
+			}
+			n++
+			perFn[fname(fn)]++
+			construct := fmt.Sprintf("%s#Label.Package-%d", fname(fn), perFn[fname(fn)])
+			ok, why := canonical(st.Val, 0, map[ssa.Value]bool{})
+			if ok {
+				r.OK("R12.6", construct, p.InstrPos(st), "the package stored in this label is canonical by construction (Clean/Join result, another label's package, \"\" or \"//\")")
+			} else {
+				r.Bad("R12.6", construct, p.InstrPos(st), "a label's package is set from %s without passing through label.Clean/Join: the label can be non-canonical (e.g. \"///docs\"), so it prints differently from the equal label \"//docs\" and does not survive print + parse", why)
+			}
+		})
+	}
+	r.Floor("R12.6", n, 3, "assignments of Label.Package in the module")
 }
